@@ -15,7 +15,7 @@ CLAIMED = {
                 assumptions=COMMON_E1),
     "C06": dict(engines=["E1"], scope="literal rendering only (text, h'..', b64'..', small integers) composed with the real literal decoders; document-level round trips are outside the claim",
                 assumptions=COMMON_E1),
-    "C07": dict(engines=["E1"], scope="integer literal decoders incl. 2^63/2^64 windows, hex/base64 decoders on short inputs (E1); text escapes that name no scalar value are rejected by the grammar (E2); unescape_text values, floats and syntactic position are outside the claim",
+    "C07": dict(engines=["E1", "E2"], scope="integer literal decoders incl. 2^63/2^64 windows, hex/base64 decoders on short inputs (E1); text escapes that name no scalar value are rejected by the grammar (E2); unescape_text values, floats and syntactic position are outside the claim",
                 assumptions=COMMON_E1),
     "C09": dict(engines=["E1"], scope="prelude identities at classification level on schemas without alias rules (full 64-bit integer range, all floats, bignum tags); operator identities evaluated inside the visitors are outside the claim",
                 assumptions=COMMON_E1),
